@@ -13,12 +13,27 @@ LABEL = {"RA.one": "kRAone", "RA.many": "kRAmany", "RB.one": "kRBone", "RB.many"
          "*.one": "kSone", "*.many": "kSmany", "RA.*": "kRAS", "RB.*": "kRBS", "*.*": "kSS"}
 
 
-def grammar(rrel_slots=(), expr=RREL):
-    def ref(slot):
-        return f"[Def:QName|{expr}]" if slot in rrel_slots else "[Def:QName]"
+def _occ_of(spec):
+    """spec: a collection of slot names (one assignment with an RREL each) or {slot: [bool per assignment]}."""
+    if isinstance(spec, dict):
+        return {s: [bool(b) for b in spec.get(s, [False])] for s in SLOTS}
+    return {s: [s in spec] for s in SLOTS}
+
+
+def grammar(spec=(), expr=RREL):
+    """Each rule has as many alternatives (keywords ra, rax, ..) as its attributes have assignments."""
+    occ = _occ_of(spec)
+
+    def ref(slot, i):
+        o = occ[slot]
+        return f"[Def:QName|{expr}]" if o[min(i, len(o) - 1)] else "[Def:QName]"
     rules = ""
     for c in RULES:
-        rules += (f"{c}: '{c.lower()}' one={ref(c + '.one')} ('many' many+={ref(c + '.many')}[','])?;\n")
+        n = max(len(occ[c + ".one"]), len(occ[c + ".many"]))
+        # keywords ra, xra, ..: none is a prefix of another; the alternatives stand in assignment order
+        alts = [f"'{'x' * i}{c.lower()}' one={ref(c + '.one', i)} ('many' many+={ref(c + '.many', i)}[','])?"
+                for i in range(n)]
+        rules += f"{c}: " + " | ".join(alts) + ";\n"
     return ("Model: imports*=Import defs*=Def pkgs*=Pkg items*=Item;\n"
             "Import: 'import' importURI=STRING;\n"
             "Def:   'def' name=QName;\n"
@@ -30,11 +45,12 @@ def grammar(rrel_slots=(), expr=RREL):
 _MM = {}
 
 
-def metamodel(rrel_slots=(), expr=RREL):
+def metamodel(spec=(), expr=RREL):
     from textx import metamodel_from_str
-    k = (tuple(sorted(rrel_slots)), expr)
+    occ = _occ_of(spec)
+    k = (tuple(sorted((s, tuple(o)) for s, o in occ.items())), expr)
     if k not in _MM:
-        _MM[k] = metamodel_from_str(grammar(rrel_slots, expr))
+        _MM[k] = metamodel_from_str(grammar(occ, expr))
     return _MM[k]
 
 
@@ -53,47 +69,62 @@ class Recording:
         return None
 
 
+class MemoRecording(dict):
+    """The same as a memoising provider derived from dict: a callable whose truth value is False until its
+    cache gets the first entry."""
+
+    def __init__(self, key, log):
+        super().__init__()
+        self.inner = Recording(key, log)
+
+    def __call__(self, obj, attr, obj_ref):
+        r = self.inner(obj, attr, obj_ref)
+        self[obj_ref.position] = r
+        return r
+
+
 # the model of the precedence check: `p.x` is a top-level definition (what the default provider finds by its
 # full name) and also the definition x of package p (what the grammar expression pkgs.defs finds)
-def precedence_model():
+def precedence_model(occ):
     text = "def p.x\n" + "".join(f"def {n}\n" for n in LABEL.values()) + "pkg p { def x }\n"
-    refs = []      # (slot, offset)
+    refs = []      # (slot, rule, item index among the items of that rule, offset)
     for c in RULES:
-        text += c.lower() + " "
-        refs.append((f"{c}.one", len(text)))
-        text += "p.x many "
-        refs.append((f"{c}.many", len(text)))
-        text += "p.x, "
-        refs.append((f"{c}.many", len(text)))
-        text += "p.x\n"
+        n = max(len(occ[c + ".one"]), len(occ[c + ".many"]))
+        for i in range(n):
+            text += "x" * i + c.lower() + " "
+            refs.append((f"{c}.one", c, i, len(text)))
+            text += "p.x many "
+            refs.append((f"{c}.many", c, i, len(text)))
+            text += "p.x, "
+            refs.append((f"{c}.many", c, i, len(text)))
+            text += "p.x\n"
     return text, refs
 
 
-def run_config(keys, rrel_slots):
-    """Register a recording provider under each key, load the precedence model, and report for every slot
-    which provider resolved its references."""
+def _observe(mm, occ, log):
+    """Load the precedence model and report for every slot which provider resolved its references."""
     from textx import get_children_of_type
-    mm = metamodel(rrel_slots)
-    log = []
-    mm.register_scope_providers({k: Recording(k, log) for k in keys})
-    text, refs = precedence_model()
+    text, refs = precedence_model(occ)
+    del log[:]
     try:
         model = mm.model_from_str(text)
     except Exception as e:
         return {"error": f"{type(e).__name__}: {e}"[:300]}
-    finally:
-        mm.register_scope_providers({})
     calls = {}
     for key, cls, attr, pos in log:
         calls.setdefault(pos, []).append((key, f"{cls}.{attr}"))
-    objs = {"RA": get_children_of_type("RA", model)[0], "RB": get_children_of_type("RB", model)[0]}
+    objs = {c: get_children_of_type(c, model) for c in RULES}
     seen = {s: [] for s in SLOTS}
-    idx = {s: 0 for s in SLOTS}
-    for slot, pos in refs:
-        c, a = slot.split(".")
-        o = objs[c]
-        tgt = o.one if a == "one" else (o.many[idx[slot]] if idx[slot] < len(o.many) else None)
-        idx[slot] += 1
+    idx = {}
+    for slot, c, i, pos in refs:
+        a = slot.split(".")[1]
+        o = objs[c][i] if i < len(objs[c]) else None
+        k = idx.get((slot, i), 0)
+        idx[(slot, i)] = k + 1
+        if o is None:
+            tgt = None
+        else:
+            tgt = o.one if a == "one" else (o.many[k] if k < len(o.many) else None)
         cs = calls.get(pos, [])
         if len(cs) > 1 or any(w != slot for _, w in cs):
             seen[slot].append(f"calls:{cs}")
@@ -110,6 +141,27 @@ def run_config(keys, rrel_slots):
         else:
             seen[slot].append(f"target:{tgt.name}")
     return {s: (v[0] if len(set(v)) == 1 else "mixed:" + ",".join(v)) for s, v in seen.items()}
+
+
+def run_config(occ_spec, prev, keys, falsy):
+    """On ONE metamodel: register `prev`, load; register `keys` (providers of `falsy` are falsy callables),
+    load; register {}, load.  -> the observation after each registration."""
+    occ = _occ_of(occ_spec)
+    mm = metamodel(occ)
+    log = []
+    out = []
+    try:
+        for reg in (prev, keys, []):
+            try:
+                mm.register_scope_providers(
+                    {k: (MemoRecording(k, log) if (reg is keys and k in falsy) else Recording(k, log)) for k in reg})
+            except Exception as e:
+                out.append({"error": f"register: {type(e).__name__}: {e}"[:300]})
+                continue
+            out.append(_observe(mm, occ, log))
+    finally:
+        mm.scope_providers = {}      # leave the cached metamodel without registrations, whatever the code did
+    return out
 
 
 # ---------------------------------------------------------------- RREL strings registered as providers
